@@ -1,6 +1,8 @@
 package props
 
 import (
+	"encoding/json"
+	"path/filepath"
 	"reflect"
 	sdb "github.com/alicebob/sqlittle/db"
 	"verif/fold"
@@ -338,6 +340,16 @@ func checkIndexedSelectStale(c *sim.Ctx, h *c08Handle, w *world.World, t *sq.Tab
 			// not a property of the handle's history: index order / content questions belong to
 			// C02 (which compares fresh handles with SQLite); counted, not reported here
 			c.Inc("index_read_differs_on_fresh_handle_too", 1)
+			if dir := os.Getenv("VERIF_C08_DUMP"); dir != "" {
+				// diagnosis aid, off by default: keep the database and what was read
+				detail["table"] = t.Name
+				b, _ := json.MarshalIndent(detail, "", " ")
+				name := filepath.Join(dir, fmt.Sprintf("c08-%d-%d", os.Getpid(), w.Version))
+				os.WriteFile(name+".json", b, 0o644)
+				if img, err := os.ReadFile(w.Path); err == nil {
+					os.WriteFile(name+".sqlite", img, 0o644)
+				}
+			}
 			return
 		}
 		c.Fail("stale-read", "stale-index-read:"+cfg, fmt.Sprintf("handle %s (opened at v%d, cache %d) IndexedSelect(%s,%s) at v%d differs from the committed content at row %d: want %s got %s (a fresh handle reads %d rows, the same as this handle: %v)", h.name, h.opened, h.cache, t.Name, ix.Name, w.Version, at, fmtRows(want, at), fmtRows(r.Rows, at), len(fr.Rows), freshSame), detail)
